@@ -569,6 +569,19 @@ def main(argv=None):
         traceback.print_exc()
         return 2
     ctx = Ctx(prop, a.tier, seed)
+    # wall-clock budget: hitting it means "inconclusive" (exit 2), never a violation.  It exists so that a
+    # change which makes a compiled loop non-terminating cannot hang the check forever.
+    import threading
+
+    budget = float(os.environ.get("VERIF_BUDGET_S") or (3600 if a.tier == "quick" else 8 * 3600))
+
+    def _expire():
+        print(f"HARNESS: wall-clock budget of {budget:.0f}s exceeded in {prop} ({a.tier}); inconclusive", file=sys.stderr, flush=True)
+        os._exit(2)
+
+    watchdog = threading.Timer(budget, _expire)
+    watchdog.daemon = True
+    watchdog.start()
     try:
         if a.replay:
             data = json.loads(Path(a.replay).read_text())
